@@ -62,11 +62,13 @@ func Lit(v Val) *Node { return &Node{K: KLit, V: v, Text: litText(v)} }
 func LitT(v Val, text string) *Node {
 	return &Node{K: KLit, V: v, Text: text}
 }
-func Id(name string) *Node                { return &Node{K: KIdent, Name: name} }
-func In(op string, l, r *Node) *Node      { return &Node{K: KInfix, Op: op, Kids: []*Node{l, r}} }
-func Pre(op string, x *Node) *Node        { return &Node{K: KPrefix, Op: op, Kids: []*Node{x}} }
-func Assign(name string, v *Node) *Node   { return &Node{K: KAssign, Name: name, Kids: []*Node{v}} }
-func Define(name string, v *Node) *Node   { return &Node{K: KAssign, Name: name, Kids: []*Node{v}, Define: true} }
+func Id(name string) *Node              { return &Node{K: KIdent, Name: name} }
+func In(op string, l, r *Node) *Node    { return &Node{K: KInfix, Op: op, Kids: []*Node{l, r}} }
+func Pre(op string, x *Node) *Node      { return &Node{K: KPrefix, Op: op, Kids: []*Node{x}} }
+func Assign(name string, v *Node) *Node { return &Node{K: KAssign, Name: name, Kids: []*Node{v}} }
+func Define(name string, v *Node) *Node {
+	return &Node{K: KAssign, Name: name, Kids: []*Node{v}, Define: true}
+}
 func Call(fn *Node, args ...*Node) *Node  { return &Node{K: KCall, Kids: append([]*Node{fn}, args...)} }
 func Bi(name string, args ...*Node) *Node { return &Node{K: KBuiltin, Op: name, Kids: args} }
 func MkArr(els ...*Node) *Node            { return &Node{K: KArray, Kids: els} }
